@@ -97,6 +97,7 @@ type Field struct {
 	StdTime    bool
 	StdDur     bool
 	CastType   string
+	CastKey    string // gogoproto.castkey on a map field
 	CustomType string
 	// Comment is the leading comment in source form: the text of the lines
 	// after "//", joined by "\n" (protoc form is derived from it).
@@ -323,6 +324,9 @@ func (r *renderer) field(full string, m *d.DescriptorProto, oneofIdx map[string]
 	}
 	if f.StdDur {
 		set(gogoproto.E_Stdduration, B(true))
+	}
+	if f.CastKey != "" {
+		set(gogoproto.E_Castkey, S(f.CastKey))
 	}
 	if f.CastType != "" {
 		set(gogoproto.E_Casttype, S(f.CastType))
